@@ -239,13 +239,17 @@ func (l lifter) attrs(as []parser.Attribute) []*Attr {
 			out = append(out, &Attr{K: ABool, Name: a.Name, Before: l.wsBefore(int(a.NameRange.From.Index))})
 		case parser.ConstantAttribute:
 			m := &Attr{K: AConst, Name: a.Name, Before: l.wsBefore(int(a.NameRange.From.Index))}
-			m.Raw = l.rawConst(int(a.NameRange.To.Index))
-			if m.Raw == "" {
-				q := `"`
+			raw := l.rawConst(int(a.NameRange.To.Index))
+			switch {
+			case len(raw) >= 3 && (raw[1] == '"' || raw[1] == '\''):
+				m.Q, m.Val = raw[1:2], raw[2:len(raw)-1]
+			case raw != "":
+				m.Val = raw[1:]
+			default:
+				m.Q, m.Val = `"`, a.Value
 				if a.SingleQuote {
-					q = `'`
+					m.Q = `'`
 				}
-				m.Raw = "=" + q + a.Value + q
 			}
 			out = append(out, m)
 		case parser.BoolExpressionAttribute:
